@@ -858,6 +858,17 @@ static int fnc_split (hawk_rtx_t* rtx, const hawk_fnc_info_t* fi, int use_array)
 		fs.ptr = HAWK_T(" ");
 		fs.len = 1;
 	}
+	else if (!a2 && rtx->gbl.fstext.ptr)
+	{
+		/* FS. go by the text made of it when it was assigned. rtx->gbl.fs is
+		 * compiled from this text. converting the value again here can give
+		 * another text - FS = 2.5 followed by a change of CONVFMT for instance */
+		fs = rtx->gbl.fstext;
+
+		if (fs.len == 5 && fs.ptr[0] == '?') do_fld = 1;
+		else if (fs.len > 1) fs_rex = rtx->gbl.fs[rtx->gbl.ignorecase];
+		else switch_fs_to_bchr = 1;
+	}
 	else if (HAWK_RTX_GETVALTYPE(rtx, t0) == HAWK_VAL_REX)
 	{
 		/* regular expression */
@@ -922,7 +933,13 @@ static int fnc_split (hawk_rtx_t* rtx, const hawk_fnc_info_t* fi, int use_array)
 	if (HAWK_UNLIKELY(!str.ptr)) goto oops;
 
 
-	if (byte_str && switch_fs_to_bchr)
+	if (byte_str && switch_fs_to_bchr && !fs_free)
+	{
+		/* FS. the same text in bytes */
+		fs.ptr = (hawk_ooch_t*)rtx->gbl.fsbtext.ptr;
+		fs.len = rtx->gbl.fsbtext.len;
+	}
+	else if (byte_str && switch_fs_to_bchr)
 	{
 		HAWK_ASSERT (fs_free = fs.ptr);
 
